@@ -23,6 +23,7 @@ pub struct DriveOpts {
     pub scratch: PathBuf,
     pub shapes: Vec<Vec<Value>>,
     pub reps: Option<usize>,
+    pub progress: Option<PathBuf>,
 }
 
 /// label pool: all three variants, multi-byte characters included
@@ -86,6 +87,7 @@ pub struct Recorder<'a> {
     pub tid: usize,
     pub events: usize,
     pub mirror_next: bool,
+    pub progress: Option<std::path::PathBuf>,
 }
 
 impl<'a> Recorder<'a> {
@@ -94,6 +96,9 @@ impl<'a> Recorder<'a> {
     }
     /// execute and record; returns false when the object panicked (trace ends)
     pub fn call(&mut self, w: &mut World, c: HCall) -> bool {
+        if let Some(p) = &self.progress {
+            let _ = std::fs::write(p, json!({"t": self.tid, "events_done": self.events, "pending": c.to_json()}).to_string());
+        }
         let before = w.gs.get(c.h).and_then(|x| x.as_ref()).map(|g| g.snap());
         // a script is judged against the same API calls applied to a copy of the graph it is deployed to
         let mut direct: Option<Value> = None;
@@ -146,6 +151,9 @@ impl<'a> Recorder<'a> {
             }
         }
         writeln!(self.out, "{e}").unwrap();
+        if self.progress.is_some() {
+            let _ = self.out.flush();
+        }
         self.events += 1;
         !ret.is_panic()
     }
@@ -164,7 +172,7 @@ pub fn run(o: &DriveOpts, out: &mut dyn Write, tid: usize) -> Value {
     }
     w.labels = labels.clone();
     let datas = data_pool();
-    let mut rec = Recorder { out, tid, events: 0, mirror_next: false };
+    let mut rec = Recorder { out, tid, events: 0, mirror_next: false, progress: o.progress.clone() };
     rec.reset(&w);
     let win = o.window.min(o.cap);
     let mut ok = true;
@@ -232,6 +240,142 @@ pub fn run(o: &DriveOpts, out: &mut dyn Write, tid: usize) -> Value {
                 off = (off + 3) % span;
             }
         }
+    }
+
+    if profile == "limits" {
+        // many short histories: a prefix inside the limits, ONE call that oversteps a limit or a precondition, a few more
+        // calls on the (possibly inconsistent) object for the sanitizer's sake, then a fresh graph
+        let mut first = true;
+        while rec.events < o.steps {
+            if !first {
+                rec.tid += 1000;
+                w = World::new(o.n, o.cap, o.scratch.clone());
+                w.labels = labels.clone();
+                rec.reset(&w);
+            }
+            first = false;
+            let kind = rng.gen_range(0..12);
+            // prefix
+            let plen = rng.gen_range(3..40);
+            let mut alive_ok = true;
+            if kind == 3 {
+                // a group of 16 (both join directions), so that the 17th member is within reach
+                alive_ok = rec.call(&mut w, HCall { h: 0, call: Call::Add { v: 0 } });
+                for i in 1..16 {
+                    alive_ok = alive_ok && rec.call(&mut w, HCall { h: 0, call: Call::Add { v: i } });
+                    let (v1, v2) = if i % 2 == 0 { (i, i - 1) } else { (i - 1, i) };
+                    alive_ok = alive_ok && rec.call(&mut w, HCall { h: 0, call: Call::Bind { v1, v2, a: labels[0].clone() } });
+                }
+            } else if kind == 4 {
+                for i in 0..14 {
+                    alive_ok = alive_ok
+                        && rec.call(&mut w, HCall { h: 0, call: Call::Add { v: 2 * i } })
+                        && rec.call(&mut w, HCall { h: 0, call: Call::Add { v: 2 * i + 1 } })
+                        && rec.call(&mut w, HCall { h: 0, call: Call::Bind { v1: 2 * i, v2: 2 * i + 1, a: labels[0].clone() } });
+                }
+            } else {
+                for _ in 0..plen {
+                    if !alive_ok {
+                        break;
+                    }
+                    let pres = w.g(0).keys().unwrap_or_default();
+                    let c = match rng.gen_range(0..5) {
+                        0 | 1 => Call::Add { v: rng.gen_range(0..win.min(o.cap)) },
+                        2 if pres.len() >= 2 => {
+                            let v1 = *pres.choose(&mut rng).unwrap();
+                            let v2 = *pres.choose(&mut rng).unwrap();
+                            let have = w.g(0).kids(v1).unwrap_or_default();
+                            if v1 == v2 {
+                                continue;
+                            }
+                            let a = if have.len() >= o.n { have.choose(&mut rng).map(|x| x.0.clone()).unwrap() } else { labels.choose(&mut rng).unwrap().clone() };
+                            Call::Bind { v1, v2, a }
+                        }
+                        3 if !pres.is_empty() => Call::Put { v: *pres.choose(&mut rng).unwrap(), d: datas.choose(&mut rng).unwrap().clone() },
+                        4 if !pres.is_empty() => Call::Data { v: *pres.choose(&mut rng).unwrap() },
+                        _ => continue,
+                    };
+                    alive_ok = rec.call(&mut w, HCall { h: 0, call: c });
+                }
+            }
+            if !alive_ok {
+                continue;
+            }
+            // the overstepping call
+            let pres = w.g(0).keys().unwrap_or_default();
+            let big = [o.cap, o.cap + 1, o.cap + 1000, usize::MAX][rng.gen_range(0..4)];
+            let absent: Vec<usize> = (0..o.cap).filter(|v| !pres.contains(v)).collect();
+            let some = pres.choose(&mut rng).copied();
+            let gone = absent.choose(&mut rng).copied();
+            let bad: Option<Call> = match kind {
+                0 => Some(Call::Add { v: big }),
+                1 => some.map(|v| if rng.gen_bool(0.5) { Call::Bind { v1: v, v2: big, a: labels[0].clone() } } else { Call::Bind { v1: big, v2: v, a: labels[0].clone() } }),
+                2 => {
+                    // the N+1st label on a vertex: fill it first
+                    match (some, pres.iter().copied().find(|x| Some(*x) != some)) {
+                        (Some(v1), Some(v2)) => {
+                            let mut okk = true;
+                            for a in labels.iter().take(o.n) {
+                                okk = okk && rec.call(&mut w, HCall { h: 0, call: Call::Bind { v1, v2, a: a.clone() } });
+                            }
+                            if okk { labels.get(o.n).map(|a| Call::Bind { v1, v2, a: a.clone() }) } else { None }
+                        }
+                        _ => None,
+                    }
+                }
+                3 => {
+                    // the 17th member, from either side
+                    let _ = rec.call(&mut w, HCall { h: 0, call: Call::Add { v: 16 } });
+                    Some(if rng.gen_bool(0.5) { Call::Bind { v1: 16, v2: rng.gen_range(0..16), a: labels[0].clone() } } else { Call::Bind { v1: rng.gen_range(0..16), v2: 16, a: labels[1 % labels.len()].clone() } })
+                }
+                4 => {
+                    let _ = rec.call(&mut w, HCall { h: 0, call: Call::Add { v: 28 } });
+                    let _ = rec.call(&mut w, HCall { h: 0, call: Call::Add { v: 29 } });
+                    Some(Call::Bind { v1: 28, v2: 29, a: labels[0].clone() })
+                }
+                5 => Some(Call::Put { v: big, d: datas[2].clone() }),
+                6 => Some(Call::Data { v: big }),
+                7 => gone.map(|v| Call::Put { v, d: datas[5].clone() }),
+                8 => gone.map(|v| Call::Data { v }),
+                9 => match (some, gone) {
+                    (Some(v), Some(g)) => Some(Call::Bind { v1: v, v2: g, a: labels[0].clone() }),
+                    _ => None,
+                },
+                10 => some.map(|v| Call::Bind { v1: v, v2: v, a: labels[0].clone() }),
+                _ => {
+                    // exhaust the allocator
+                    let mut okk = true;
+                    for _ in 0..o.cap + 1 {
+                        okk = okk && rec.call(&mut w, HCall { h: 0, call: Call::NextId });
+                        if !okk {
+                            break;
+                        }
+                    }
+                    None
+                }
+            };
+            if let Some(c) = bad {
+                let _ = rec.call(&mut w, HCall { h: 0, call: c });
+            }
+            // keep using the object: reads, exports, clone, save/load (the sanitizer watches; the judge has stopped)
+            for _ in 0..rng.gen_range(2..8) {
+                let pres = w.g(0).keys().unwrap_or_default();
+                let c = match rng.gen_range(0..6) {
+                    0 => Call::Add { v: rng.gen_range(0..o.cap) },
+                    1 if !pres.is_empty() => Call::Data { v: *pres.choose(&mut rng).unwrap() },
+                    2 if !pres.is_empty() => Call::Put { v: *pres.choose(&mut rng).unwrap(), d: datas[6].clone() },
+                    3 => Call::Clone { dst: 1 },
+                    4 => Call::Reload { dst: 1 },
+                    5 if !pres.is_empty() => Call::Slice { dst: 1, v: *pres.choose(&mut rng).unwrap(), p: Pred::All },
+                    _ => continue,
+                };
+                let _ = rec.call(&mut w, HCall { h: 0, call: c });
+                let _ = w.g(0).debug();
+                let _ = w.g(0).to_xml();
+                let _ = w.g(0).to_dot();
+            }
+        }
+        return json!({"t": tid, "profile": o.profile, "n": o.n, "cap": o.cap, "seed": o.seed, "events": rec.events, "panicked": false});
     }
 
     if profile == "merge" {
